@@ -115,6 +115,17 @@ def run(job, seed):
                             rule = 'p'
                         _rows(acc, P, enf, rule, how, st, enforce_scope,
                               check_allows, override, eff_role)
+                        if how == 'object':
+                            # the same check object on enforcers that never
+                            # load anything from configuration
+                            e2 = P.Enforcer(conf, use_conf=False, rules={
+                                'x': _parser.parse_rule('@')})
+                            e3 = P.Enforcer(conf)
+                            e3.set_rules({'x': _parser.parse_rule('@')})
+                            for e in (e2, e3):
+                                _rows(acc, P, e, rule, how, st,
+                                      enforce_scope, check_allows, override,
+                                      eff_role)
         _sequences(acc, P, _parser, w, st)
     finally:
         w.destroy()
